@@ -199,22 +199,22 @@ Lemma dirname_prefix : forall s,
   In SLASH s -> dirname s <> [] /\ starts_with (ensure_slash (dirname s)) s = true.
 Proof.
   intros s Hin. unfold dirname.
-  set (notslash := fun c => negb (N.eqb c SLASH)).
+  remember (fun c => negb (N.eqb c SLASH)) as notslash eqn:Ens.
   destruct (drop_while_split notslash (rev s)) as [t [Hs [Ht Hd]]].
-  set (d := drop_while notslash (rev s)) in *.
+  remember (drop_while notslash (rev s)) as d eqn:Ed0. clear Ed0.
   assert (Hd' : exists d', d = SLASH :: d').
   { destruct d as [|c d'].
     - exfalso. rewrite app_nil_r in Hs. apply in_rev in Hin. rewrite Hs in Hin.
-      rewrite Forall_forall in Ht. apply Ht in Hin. unfold notslash in Hin.
+      rewrite Forall_forall in Ht. apply Ht in Hin. rewrite Ens in Hin.
       rewrite N.eqb_refl in Hin. discriminate.
-    - unfold notslash in Hd. apply negb_false_iff in Hd. apply N.eqb_eq in Hd. subst. eauto. }
+    - rewrite Ens in Hd. apply negb_false_iff in Hd. apply N.eqb_eq in Hd. rewrite Hd. eauto. }
   destruct Hd' as [d' Ed].
   assert (Es : s = rev d ++ rev t).
   { rewrite <- (rev_involutive s), Hs, rev_app_distr. reflexivity. }
-  set (isslash := fun c => N.eqb c SLASH).
   rewrite rev_involutive.
+  remember (fun c => N.eqb c SLASH) as isslash eqn:Eis.
   destruct (drop_while_split isslash d) as [u [Hu [Hu1 Hu2]]].
-  set (e := drop_while isslash d) in *.
+  remember (drop_while isslash d) as e eqn:Ee0. clear Ee0.
   destruct (rev e) as [|x xs] eqn:Er.
   - (* only slashes: dirname = head *)
     split.
@@ -226,15 +226,20 @@ Proof.
     (* d = u ++ e, u = slashes, nonempty; e does not start with a slash *)
     assert (Hu' : exists u', u = SLASH :: u').
     { destruct u as [|c u'].
-      - exfalso. simpl in Hu. rewrite <- Hu in Hu2. fold e in Hu2. rewrite Ed in Hu2.
-        unfold isslash in Hu2. rewrite N.eqb_refl in Hu2. discriminate.
-      - inversion Hu1; subst. unfold isslash in H1. apply N.eqb_eq in H1. subst. eauto. }
+      - exfalso. simpl in Hu. rewrite <- Hu in Hu2. rewrite Ed in Hu2.
+        rewrite Eis in Hu2. rewrite N.eqb_refl in Hu2. discriminate.
+      - inversion Hu1 as [|? ? H1 H2]. rewrite Eis in H1. apply N.eqb_eq in H1. rewrite H1. eauto. }
     destruct Hu' as [u' Eu].
     assert (Ee : ends_slash (rev e) = false).
     { destruct e as [|c e'] eqn:Ee'; [discriminate|].
-      rewrite ends_slash_rev. exact Hu2. }
+      rewrite ends_slash_rev. rewrite Eis in Hu2. exact Hu2. }
     unfold ensure_slash. rewrite Ee.
-    apply starts_with_iff. exists (rev u' ++ rev t).
-    rewrite Es, Hu, Eu. fold e. rewrite rev_app_distr. simpl.
+    assert (Hw : exists w, rev u = SLASH :: w).
+    { pose proof (Forall_rev Hu1) as Hr. destruct (rev u) as [|c w] eqn:Eru.
+      - exfalso. rewrite Eu in Eru. simpl in Eru. apply app_eq_nil in Eru as [_ Eru]. discriminate.
+      - inversion Hr as [|? ? H1 H2]. rewrite Eis in H1. apply N.eqb_eq in H1. rewrite H1. eauto. }
+    destruct Hw as [w Ew].
+    apply starts_with_iff. exists (w ++ rev t).
+    rewrite Es, Hu. rewrite rev_app_distr, Ew. simpl.
     repeat rewrite <- app_assoc. reflexivity.
 Qed.
